@@ -312,7 +312,7 @@ def model_check(pid, v, tier, out):
     for name in names:
         r, cfg, progs = run_config(pid, name, v, simulate=SIMULATE.get(name))
         total = len(progs)
-        cap = cfg.get("replay_quick", 12000) if tier == "quick" else 400000
+        cap = cfg.get("replay_quick", 12000) if tier == "quick" else 100000
         if total > cap:
             step = total // cap + 1
             progs = progs[vlib.seed() % step::step]
